@@ -24,7 +24,7 @@ CHECKS = {
          "Retired balances, retired supply and cancelled supply are compared across every transition of the C01 alphabets from seeds in which every written row already carries a retired amount; per-handler counters prove each writer was exercised on such rows.",
          "§7 C04", TRUST),
  "C05": ("A", "model_checking", A_TECH + "exact backing invariant on every state + mint/burn monitors",
-         "Basket alphabets incl. 34-digit puts (totals beyond 34 significant digits): bank supply of each basket denom equals the exact-rational sum of basket balances x 10^precision on every state; Put/Take mint/burn/release exactly; the registered basket-supply invariant must never report a failure.",
+         "Basket alphabets incl. 34-digit puts (totals beyond 34 significant digits), basket tokens used as a marketplace ask denomination with fees, and a state imported from a genesis with absent zero amounts: bank supply of each basket denom equals the exact-rational sum of basket balances x 10^precision on every state; Put/Take mint/burn/release exactly; the registered basket-supply invariant must never report a failure.",
          "§7 C05", TRUST),
  "C06": ("A", "model_checking", A_TECH + "escrow = open orders invariant on every state",
          "Market and expiry alphabets (sell, update up/down/denom change, cancel, partial/full/multi fills, expiry, allowed-denom changes): per (account,batch) escrow equals the sum of open order quantities, orders are well-formed, and each created/updated order's ask denom was allowed in the pre-state.",
@@ -33,7 +33,7 @@ CHECKS = {
          "Every successful BuyDirect is recomputed from the pre-state order, fee params and request in exact rationals: credits to the buyer (retired iff auto-retire), escrow/order shrink, seller payment and fee within one base unit per fill, buyer debit = payouts and <= exact total, max fee >= floor(buyer fee), nothing else moves.",
          "§7 C07", TRUST + " Alphabet bound: ask x quantity below 34 significant digits."),
  "C08": ("A", "model_checking", A_TECH + "role table evaluated in the pre-state + row-level footprint diff on every accepted message",
-         "Every message type of the three ecocredit services and the data service is sent by every account (holder, former holder, holder of the same role elsewhere, stranger, authority) from plain and role-rotated seeds; acceptance requires the role in the pre-state, the row diff must stay inside the message's write set, unimplemented RPCs must fail, sealed batches never change.",
+         "Every message type of the three ecocredit services and the data service is sent by every account (holder, former holder, holder of the same role elsewhere, stranger, authority) from plain and role-rotated seeds; acceptance requires the role in the pre-state, the row diff must stay inside the message's write set, after every creation or hand-over (also to a 32-byte account) the role is held by exactly the account(s) the message names, unimplemented RPCs must fail, sealed batches never change.",
          "§7 C08, Appendix A", TRUST),
  "C09": ("A", "model_checking", A_TECH + "genesis export/validate/import/re-export round trip on every distinct state",
          "On every distinct state of a boundary-input alphabet (equal dates, epoch and pre-1970 dates, maximal lengths, public resolvers, zero fees) and of the core/market/basket alphabets: ExportGenesis of both modules, the modules' ValidateGenesis, InitGenesis into a fresh chain, byte-identical re-export, registered invariants on the imported chain.",
@@ -57,19 +57,19 @@ CHECKS = {
          "Conversion part: all 65536+ values of every numeric field, every hash length 19..65, extension strings, and parser-side edit neighbours / synthetic base58check payloads: round trip identity, injectivity over all valid hashes enumerated, accepted IRIs re-encode identically. On-chain part: over all histories of the data alphabet (9 content hashes incl. two with equal digest bytes and two never used, production and colliding ID hashers) every by-hash and by-IRI query answers with exactly the asked content hash's own record (IRI, hash, first anchor time, attestors, resolvers) or not at all.",
          "§7 C15", TRUST + " base58 library used only to build inputs."),
  "C16": ("A", "model_checking", A_TECH + "ghost of first-anchor times / attestations / registrations, injected weak ID hashers",
-         "Data-module alphabet (Anchor/Attest/DefineResolver/RegisterResolver, 6 content hashes, 3 signers, time steps) under the production hasher and under constant / few-output / repeating-byte digests with MinLength 1,4,8 built with the repository's own hasher constructor: ids of distinct IRIs differ and never change, first timestamps are permanent, registrations are never lost, only managers register to private resolvers.",
+         "Data-module alphabet (Anchor/Attest/DefineResolver/RegisterResolver, 6 content hashes, 3 signers, time steps) under the production hasher and under constant / few-output / repeating-byte digests with MinLength 1,4,8 built with the repository's own hasher constructor: ids of distinct IRIs differ and never change, first timestamps are permanent, registrations are never lost, an anchored IRI stays acceptable to the chain's own parser, under the production hasher the id is the documented derivation (independent BLAKE2b), only managers register to private resolvers.",
          "§7 C16", TRUST + " Uses the verif-tagged constructor hook."),
  "C17": ("A", "model_checking", A_TECH + "on every distinct state all list and single-entity queries x filter arguments (present and near-miss) x page requests are enumerated against a brute-force filter of the primary-key scan",
-         "States of a populate alphabet from four seeds (one a module-validated genesis with prefix-related ids C01/C011, C10/C100, C01-001/C01-0011, r/r1; one with byte-prefix-related data ids under a weak hasher): 27 list queries and 14 single-entity queries of the four query services are called with every present and near-miss filter value and with nil paging, key walks (limit 1,2,3,N,N+1) and offset walks; results must equal the brute-force multiset, pages neither drop nor repeat, totals are correct where the PageRequest contract defines them.",
+         "States of a populate alphabet from four seeds (one a module-validated genesis with prefix-related ids C01/C011, C10/C100, C01-001/C01-0011, r/r1; one with byte-prefix-related data ids under a weak hasher): 27 list queries and 14 single-entity queries of the four query services are called with every present and near-miss filter value and with nil paging, key walks (limit 1,2,3,N,N+1), offset walks, reverse key and offset walks, and limit-less continuations; results must equal the brute-force multiset, pages neither drop nor repeat, totals are correct where the PageRequest contract defines them.",
          "§7 C17", TRUST + " Per-(query,argument) results are memoised on a content hash of the tables the handler reads. States with more than 100 matching rows are outside the bound."),
  "C18": ("A", "model_checking", "exhaustive product of accepted parameter configurations x user operations executed on the real handlers (two acceptance paths: governance messages, genesis validation+import)",
-         "Every configuration of the parameter alphabet that a path accepts is followed by CreateClass, basket Create (several offers each), Sell+BuyDirect per allowed denom, Put+Take: operations whose preconditions hold must succeed without panic, creation fees are debited and burned exactly, underpaid/unfunded creations are rejected, no fee set => nothing charged.",
+         "Every configuration of the parameter alphabet that a path accepts is followed by CreateClass, basket Create (several offers each), Sell+BuyDirect per allowed denom, Put+Take: operations whose preconditions hold must succeed without panic (also with an explicit zero max fee, and on the basket of a three-letter credit type added through governance), the accepted fee rates are in force (exact fee collected and seller payment), creation fees (up to amounts beyond 64 bits) are debited and burned exactly, underpaid/unfunded creations are rejected, no fee set => nothing charged.",
          "§7 C18", TRUST),
  "C19": ("A+B", "model_checking", B_TECH + " + operation-sequence search for aliasing and history dependence, for types/math; plus " + A_TECH + "exact truncation of coin amounts at the marketplace use sites on every fill",
          "Arithmetic part: ~500 (thorough ~2000) decimal literals, all ordered pairs x 14 operations against big.Rat; every string over {0,1,5,.,-,+,e} up to length 5 (6) against the reference grammar; operand immutability on the internal apd words; a BFS over operation sequences on a shared pool for big.Int aliasing; a probe set that must be bit-identical after every earlier-operation kind. Use-site part: every successful BuyDirect of the fee-rate x order-history seeds pays the seller trunc(exact proceeds) and collects trunc(exact fees).",
          "§7 C19", TRUST + " Go math/big is the arithmetic reference."),
- "C20": ("B", "exploration", "exhaustive product of inputs x environment answers against recording fakes of the ICA controller and capability keepers",
-         "Owners x connections x message shapes x block times x channel/capability availability x SendTx outcome on the real keeper.SubmitTx: one packet on the owner's own port with exactly the inner message and timeout = block time + 60 s, or no send and an error.",
+ "C20": ("B", "model_checking", "exhaustive product of inputs x environment answers (and an earlier call on the same keeper) executed on the real keeper against recording fakes of the ICA controller and capability keepers",
+         "Owners (20- and 32-byte, upper-case spelling, another chain's prefix) x connections (incl. blank-suffixed ids) x message shapes x block times (incl. sub-second) x channel/capability availability x SendTx outcome x delivery (in memory, wire round trip) x cold/warm keeper, through ValidateBasic and the real keeper.SubmitTx: one packet on the owner's own port with exactly the inner message and timeout = block time + 60 s, or no send and an error.",
          "§7 C20", "Trusted base: ibc-go packet (de)serialisation used to decode the recorded packet (cross-checked by a hand-written wire reader)."),
 }
 
